@@ -1,8 +1,270 @@
 import Lean.Data.Json
-/- stub: the C10 driver is not built yet -/
-namespace Glom.C10.Driver
-open Lean
+import Glom.Spec.C10
+import Glom.Model.C10Env
+/-
+  C10 driver: one JSON case in, one JSON verdict out.  (The decoders are shared
+  with the C09 driver.)
 
-def run (_j : Json) : Except String Json := .error "property C10: driver not implemented yet"
+  V:     null | {"b":bool} | {"i":int} | {"f2":twice} | {"s":str} | {"l":[V…]} | {"t":[V…]}
+         | {"set":[V…]} | {"fs":[V…]} | {"d":[[V,V]…]} | {"obj":tag}
+  Arg:   {"c":V} | {"t":[V…]}
+  Spec:  {"k":"t","e":[V…]} | {"k":"val","v":V} | {"k":"M"} | {"k":"msub","e":[V…]}
+         | {"k":"mexpr","l":Side,"op":"eq|ne|gt|lt|ge|le","r":Side}      Side: {"m":true}|{"sub":[V…]}|{"c":V}
+         | {"k":"and"|"or","cs":[Spec…],"d":Arg|null} | {"k":"not","c":Spec}
+         | {"k":"switch","cases":[[Spec,Spec]…],"d":Arg|null}
+         | {"k":"check", "spec":[V…]|null, "type":OM|null, "instance_of":OM|null, "equal_to":{"v":V}|null,
+            "one_of":[V…]|null, "validate":OMF|null, "d":Arg|null}       OM: {"one":x}|{"many":[x…]}
+         | {"k":"regex","items":[{"c":cls,"p":bool}…],"f":"fullmatch|search|match"}
+         | {"k":"match","s":Spec,"d":Arg|null} | {"k":"ty","n":name} | {"k":"lit","v":V}
+         | {"k":"pred","id":n,"fn":name} | {"k":"list"|"set"|"fset"|"tuple","cs":[Spec…]}
+         | {"k":"dict","es":[[kind,Spec,Spec]…]}    kind: "plain" | "req" | {"opt":Arg|null}
+  OpExpr: {"leaf":Spec} | {"and":[a,b]} | {"or":[a,b]} | {"inv":a}
+  Obs:   {"ok":V,"log":[n…]} | {"exc":cls,"glom":b,"match":b,"typematch":b,"typeerror":b,"pae":b,"check":b,"log":[n…]}
+         | {"ctor":cls}
+  case:  {"spec":Spec | "ops":OpExpr, "target":V, "impl":Obs, "impl_bare":Obs|null}
+-/
+namespace Glom.C10.Driver
+open Lean Glom Glom.MV Glom.C10
+
+def arrOf (j : Json) : Except String (List Json) :=
+  match j with
+  | .arr a => .ok a.toList
+  | _ => .error s!"expected array, got {j.compress}"
+
+partial def vOfJson (j : Json) : Except String V :=
+  match j with
+  | .null => .ok .none
+  | .obj _ =>
+    if let .ok b := j.getObjValAs? Bool "b" then .ok (.bool b)
+    else if let .ok i := j.getObjValAs? Int "i" then .ok (.int i)
+    else if let .ok i := j.getObjValAs? Int "f2" then .ok (.flt i)
+    else if let .ok s := j.getObjValAs? String "s" then .ok (.str s)
+    else if let .ok s := j.getObjValAs? String "obj" then .ok (.obj s)
+    else if let .ok (.arr a) := j.getObjVal? "l" then do return .list (← a.toList.mapM vOfJson)
+    else if let .ok (.arr a) := j.getObjVal? "t" then do return .tuple (← a.toList.mapM vOfJson)
+    else if let .ok (.arr a) := j.getObjVal? "set" then do return .set (← a.toList.mapM vOfJson)
+    else if let .ok (.arr a) := j.getObjVal? "fs" then do return .fset (← a.toList.mapM vOfJson)
+    else if let .ok (.arr a) := j.getObjVal? "d" then do
+      return .dict (← a.toList.mapM (fun e => match e with
+        | .arr #[k, v] => do return (← vOfJson k, ← vOfJson v)
+        | _ => throw s!"bad pair {e.compress}"))
+    else .error s!"bad V {j.compress}"
+  | _ => .error s!"bad V {j.compress}"
+
+partial def vToJson : V → Json
+  | .none => .null
+  | .bool b => Json.mkObj [("b", b)]
+  | .int i => Json.mkObj [("i", toJson i)]
+  | .flt i => Json.mkObj [("f2", toJson i)]
+  | .str s => Json.mkObj [("s", s)]
+  | .obj s => Json.mkObj [("obj", s)]
+  | .list xs => Json.mkObj [("l", Json.arr (xs.map vToJson).toArray)]
+  | .tuple xs => Json.mkObj [("t", Json.arr (xs.map vToJson).toArray)]
+  | .set xs => Json.mkObj [("set", Json.arr (xs.map vToJson).toArray)]
+  | .fset xs => Json.mkObj [("fs", Json.arr (xs.map vToJson).toArray)]
+  | .dict es => Json.mkObj [("d", Json.arr (es.map (fun e => Json.arr #[vToJson e.1, vToJson e.2])).toArray)]
+
+def vsOfJson (j : Json) : Except String (List V) := do (← arrOf j).mapM vOfJson
+
+def optField {α} (j : Json) (k : String) (f : Json → Except String α) : Except String (Option α) :=
+  match j.getObjVal? k with
+  | .ok .null => .ok none
+  | .ok v => do return some (← f v)
+  | .error _ => .ok none
+
+def argOfJson (j : Json) : Except String Arg := do
+  if let .ok v := j.getObjVal? "c" then return .const (← vOfJson v)
+  else if let .ok e := j.getObjVal? "t" then return .t (← vsOfJson e)
+  else throw s!"bad Arg {j.compress}"
+
+def cmpOfJson (s : String) : Except String CmpOp :=
+  match s with
+  | "eq" => .ok .eq | "ne" => .ok .ne | "gt" => .ok .gt | "lt" => .ok .lt
+  | "ge" => .ok .ge | "le" => .ok .le
+  | _ => .error s!"bad op {s}"
+
+def sideOfJson (j : Json) : Except String Side := do
+  if let .ok _ := j.getObjVal? "m" then return .m
+  else if let .ok e := j.getObjVal? "sub" then return .sub (← vsOfJson e)
+  else if let .ok v := j.getObjVal? "c" then return .const (← vOfJson v)
+  else throw s!"bad Side {j.compress}"
+
+def omOfJson {α} (f : Json → Except String α) (j : Json) : Except String (OneOrMany α) := do
+  if let .ok v := j.getObjVal? "one" then return .one (← f v)
+  else if let .ok v := j.getObjVal? "many" then return .many (← (← arrOf v).mapM f)
+  else throw s!"bad OneOrMany {j.compress}"
+
+def strOf (j : Json) : Except String String :=
+  match j with
+  | .str s => .ok s
+  | _ => .error s!"expected string, got {j.compress}"
+
+def fnOfJson (j : Json) : Except String Fn := do
+  let id ← optField j "id" (fun v => match v.getNat? with | .ok n => .ok n | .error e => .error e)
+  return (id, ← j.getObjValAs? String "fn")
+
+def clsOfJson (j : Json) : Except String CharCls :=
+  match j with
+  | .str "lower" => .ok .lower
+  | .str "digit" => .ok .digit
+  | .str "notAt" => .ok .notAt
+  | .str "any" => .ok .any
+  | _ => match j.getObjValAs? String "lit" with
+    | .ok s => (match s.toList with | [c] => .ok (.lit c) | _ => .error "bad lit class")
+    | .error _ => .error s!"bad char class {j.compress}"
+
+partial def specOfJson (j : Json) : Except String Spec := do
+  let k ← j.getObjValAs? String "k"
+  let children := fun (key : String) => do (← arrOf (← j.getObjVal? key)).mapM specOfJson
+  match k with
+  | "t" => return .t (← vsOfJson (← j.getObjVal? "e"))
+  | "val" => return .val (← vOfJson (← j.getObjVal? "v"))
+  | "M" => return .mtype
+  | "msub" => return .msub (← vsOfJson (← j.getObjVal? "e"))
+  | "mexpr" =>
+    let l ← sideOfJson (← j.getObjVal? "l")
+    let ml ← (match l with
+      | .m => pure MSide.m
+      | .sub e => pure (MSide.sub e)
+      | .const _ => throw "mexpr: lhs must be M or M(T…)")
+    return .mexpr ml (← cmpOfJson (← j.getObjValAs? String "op")) (← sideOfJson (← j.getObjVal? "r"))
+  | "and" => return .and (← children "cs") (← optField j "d" argOfJson)
+  | "or" => return .or (← children "cs") (← optField j "d" argOfJson)
+  | "not" => return .not (← specOfJson (← j.getObjVal? "c"))
+  | "switch" =>
+    let cases ← (← arrOf (← j.getObjVal? "cases")).mapM (fun e => match e with
+      | .arr #[a, b] => do return (← specOfJson a, ← specOfJson b)
+      | _ => throw s!"bad case {e.compress}")
+    return .switch cases (← optField j "d" argOfJson)
+  | "check" =>
+    return .check {
+      spec := ← optField j "spec" vsOfJson
+      type_ := ← optField j "type" (omOfJson strOf)
+      instanceOf := ← optField j "instance_of" (omOfJson strOf)
+      equalTo := ← optField j "equal_to" (fun v => do vOfJson (← v.getObjVal? "v"))
+      oneOf := ← optField j "one_of" vsOfJson
+      validate := ← optField j "validate" (omOfJson fnOfJson)
+      default := ← optField j "d" argOfJson }
+  | "regex" =>
+    let items ← (← arrOf (← j.getObjVal? "items")).mapM (fun e => do
+      return ({ cls := ← clsOfJson (← e.getObjVal? "c"), plus := ← e.getObjValAs? Bool "p" } : ReItem))
+    let f ← (match ← j.getObjValAs? String "f" with
+      | "fullmatch" => pure ReFunc.fullmatch
+      | "search" => pure ReFunc.search
+      | "match" => pure ReFunc.match_
+      | o => throw s!"bad regex func {o}")
+    return .regex items f
+  | "match" => return .matchS (← specOfJson (← j.getObjVal? "s")) (← optField j "d" argOfJson)
+  | "ty" => return .ty (← j.getObjValAs? String "n")
+  | "lit" => return .lit (← vOfJson (← j.getObjVal? "v"))
+  | "pred" => return .pred (← j.getObjValAs? Nat "id") (← j.getObjValAs? String "fn")
+  | "list" => return .list (← children "cs")
+  | "set" => return .set (← children "cs")
+  | "fset" => return .fset (← children "cs")
+  | "tuple" => return .tuple (← children "cs")
+  | "dict" =>
+    let es ← (← arrOf (← j.getObjVal? "es")).mapM (fun e => match e with
+      | .arr #[kind, ks, vs] => do
+        let kk ← (match kind with
+          | .str "plain" => pure KeyKind.plain
+          | .str "req" => pure KeyKind.req
+          | o => do return KeyKind.opt (← optField o "opt" argOfJson))
+        return (kk, ← specOfJson ks, ← specOfJson vs)
+      | _ => throw s!"bad dict entry {e.compress}")
+    return .dict es
+  | o => throw s!"bad spec kind {o}"
+
+partial def opsOfJson (j : Json) : Except String OpExpr := do
+  if let .ok s := j.getObjVal? "leaf" then return .leaf (← specOfJson s)
+  else if let .ok (.arr #[a, b]) := j.getObjVal? "and" then return .band (← opsOfJson a) (← opsOfJson b)
+  else if let .ok (.arr #[a, b]) := j.getObjVal? "or" then return .bor (← opsOfJson a) (← opsOfJson b)
+  else if let .ok a := j.getObjVal? "inv" then return .inv (← opsOfJson a)
+  else throw s!"bad OpExpr {j.compress}"
+
+def logOfJson (j : Json) : Except String Log := do
+  (← arrOf (← j.getObjVal? "log")).mapM (fun v => match v.getNat? with | .ok n => .ok n | .error e => .error e)
+
+def obsOfJson (j : Json) : Except String Obs := do
+  if let .ok v := j.getObjVal? "ok" then return .ok (← vOfJson v) (← logOfJson j)
+  else if let .ok c := j.getObjValAs? String "ctor" then return .ctor c
+  else if let .ok c := j.getObjValAs? String "exc" then
+    return .exc c (← j.getObjValAs? Bool "glom") (← j.getObjValAs? Bool "match")
+      (← j.getObjValAs? Bool "typematch") (← j.getObjValAs? Bool "typeerror")
+      (← j.getObjValAs? Bool "pae") (← j.getObjValAs? Bool "check") (← logOfJson j)
+  else throw s!"bad obs {j.compress}"
+
+def obsToJson : Obs → Json
+  | .ok v l => Json.mkObj [("ok", vToJson v), ("log", toJson l)]
+  | .ctor c => Json.mkObj [("ctor", c)]
+  | .exc c g m tm te p ck l => Json.mkObj [("exc", c), ("glom", g), ("match", m), ("typematch", tm),
+      ("typeerror", te), ("pae", p), ("check", ck), ("log", toJson l)]
+
+/-- observations agree: same kind, same class/flags/log, results equal up to set / dict order -/
+def obsAgree (a b : Obs) : Bool :=
+  match a, b with
+  | .ok v l, .ok v' l' => valEq v v' && l == l'
+  | a, b => a == b
+
+def specHead : Spec → String
+  | .t _ => "t" | .val _ => "val" | .mtype => "M" | .msub _ => "msub" | .mexpr .. => "mexpr"
+  | .and _ d => if d.isSome then "and+d" else "and" | .or _ d => if d.isSome then "or+d" else "or"
+  | .not _ => "not" | .switch _ d => if d.isSome then "switch+d" else "switch"
+  | .check _ => "check" | .regex .. => "regex" | .matchS _ d => if d.isSome then "match+d" else "match"
+  | .ty _ => "ty" | .lit _ => "lit" | .pred .. => "pred" | .list _ => "list" | .set _ => "set"
+  | .fset _ => "fset" | .tuple _ => "tuple" | .dict _ => "dict"
+
+def verdictTag : Verdict → String
+  | .pass _ => "pass"
+  | .reject .comb => "reject" | .reject .typ => "reject-type" | .reject .access => "reject-access"
+  | .reject .check => "reject-check"
+  | .fault c => s!"fault-{c}"
+
+/-- a T expression as an operand of & | ~ : TType records the operator itself (C02) -/
+def hasTOperand : OpExpr → Bool
+  | .leaf (.t _) => true
+  | .leaf _ => false
+  | .band a b | .bor a b => hasTOperand a || hasTOperand b
+  | .inv a => hasTOperand a
+
+def modelObs (s : Spec) (t : V) : Obs :=
+  match ctorErr s with
+  | some e => .ctor e.cls
+  | none => observe genEnv (eval genEnv s t)
+
+def run (j : Json) : Except String Json := do
+  let target ← vOfJson (← j.getObjVal? "target")
+  let implObs ← obsOfJson (← j.getObjVal? "impl")
+  let bare ← optField j "impl_bare" obsOfJson
+  let ct := genEnv.cls
+  if let .ok oj := j.getObjVal? "ops" then
+    -- operator-built tree
+    let e ← opsOfJson oj
+    if hasTOperand e then
+      return Json.mkObj [("skip", true), ("why", "T expression as an operand of & | ~ (recorded by TType: C02)")]
+    let built := build genEnv.boolOps true e
+    let mObs := match built with
+      | .error x => Obs.ctor x.cls
+      | .ok s => modelObs s target
+    let holds := checkOps ct e target implObs &&
+      (match bare with | some b => checkOps ct e target b | none => true)
+    let agree := obsAgree mObs implObs && (match bare with | some b => obsAgree mObs b | none => true)
+    let tag := match build expectedBoolOps false e with
+      | .error x => s!"ops:ctor-{x.cls}"
+      | .ok s => s!"ops-{specHead s}:{verdictTag (denote ct s target).1}"
+    return Json.mkObj [("agree", agree), ("holds", holds), ("model", obsToJson mObs), ("branch", tag),
+      ("wf", WF genEnv),
+      ("model_holds", checkOps ct e target mObs)]
+  else
+    let s ← specOfJson (← j.getObjVal? "spec")
+    let mObs := modelObs s target
+    let holds := checkC10 ct s target implObs &&
+      (match bare with | some b => checkC10 ct s target b | none => true)
+    let agree := obsAgree mObs implObs && (match bare with | some b => obsAgree mObs b | none => true)
+    let tag := match ctorErr s with
+      | some e => s!"{specHead s}:ctor-{e.cls}"
+      | none => s!"{specHead s}:{verdictTag (denote ct s target).1}"
+    return Json.mkObj [("agree", agree), ("holds", holds), ("model", obsToJson mObs), ("branch", tag),
+      ("wf", WF genEnv),
+      ("model_holds", checkC10 ct s target mObs)]
 
 end Glom.C10.Driver
